@@ -48,12 +48,12 @@ type Case struct {
 	UpFail []bool `json:"up_fail"`
 	UpPos  []int  `json:"up_fail_pos,omitempty"` // where the failing up command sits: 0 last, 1 first, 2 in the middle (a succeeding one follows)
 	// Absent: per context, the hook lists that are not given at all (bit 0 up, 1 down, 2 before, 3 after)
-	Absent []int  `json:"absent,omitempty"`
+	Absent []int `json:"absent,omitempty"`
 	// DownFail: the context's down command fails (after having left its token): the other contexts' down commands are
 	// due all the same
 	DownFail []bool `json:"down_fail,omitempty"`
-	Tasks  []T    `json:"tasks"`
-	Mode   string `json:"mode"` // parallel | sequential | scheduler | cli
+	Tasks    []T    `json:"tasks"`
+	Mode     string `json:"mode"` // parallel | sequential | scheduler | cli
 	// cli: how the tasks are spread over the targets of the command line, in order: a target is one task run
 	// directly or a pipeline of N consecutive tasks chained by depends_on (empty = every task a direct target)
 	Targets []Tg `json:"targets,omitempty"`
